@@ -63,9 +63,9 @@ PROPS['C01'] = dict(
   bounds=dict(quick='n=3 labels: histories of k=2 operations (7 kinds) from the empty tree, values 0..2, option sets default/full_featured/fast_persistence/minimal/stable-only/linked-only, default also with labels {-7,2,40}; plus ONE operation from every valid filtered complex on 3 labels with values 0..2 (solver-chosen state; default, full_featured, fast_persistence)', thorough='n=3,k=3 for every option set; n=4,k=2 default and full_featured'),
   outside=['histories longer than k', 'more than 4 vertices', 'Simplex_data payloads', 'insert_graph (covered with C04)', 'non-monotone intermediate states (documented precondition)'],
   assumptions=['every intermediate state is a filtered complex (closed under faces, monotone values)', 'remove_maximal_simplex only on a simplex without cofaces (documented precondition)', 'insert_simplex only when all faces are present'],
-  units=[U('hist_opt%d_n3k2' % o, 'C01_history.cpp', ['VP_N=3', 'VP_K=2', 'VP_OPT=%d' % o], weight=4, must_reach=_tags1 + ([] if o in (2,) else ['clear']) + ([] if o == 3 else ['prune_above_filtration'])) for o in range(6)]
+  units=[U('hist_opt%d_n3k2' % o, 'C01_history.cpp', ['VP_N=3', 'VP_K=2', 'VP_OPT=%d' % o], weight=12, must_reach=_tags1 + ([] if o in (2,) else ['clear']) + ([] if o == 3 else ['prune_above_filtration'])) for o in range(6)]
       + [U('hist_opt0_labels_n3k2', 'C01_history.cpp', ['VP_N=3', 'VP_K=2', 'VP_OPT=0', 'VP_LABELS=1'], weight=4, must_reach=_tags1)]
-      + [U('step_opt%d_n3' % o, 'C01_history.cpp', ['VP_N=3', 'VP_K=1', 'VP_OPT=%d' % o, 'VP_STATE', 'VP_FMAX=1'], weight=12, jobs=8, budget=900, must_reach=['end', 'insert_simplex_and_subfaces', 'remove_maximal_simplex', 'prune_above_dimension']) for o in (0, 1, 2)]
+      + [U('step_opt%d_n3' % o, 'C01_history.cpp', ['VP_N=3', 'VP_K=1', 'VP_OPT=%d' % o, 'VP_STATE', 'VP_FMAX=1'], weight=25, must_reach=['end', 'insert_simplex_and_subfaces', 'remove_maximal_simplex', 'prune_above_dimension']) for o in (0, 1, 2)]
       + [U('hist_opt%d_n3k3' % o, 'C01_history.cpp', ['VP_N=3', 'VP_K=3', 'VP_OPT=%d' % o], tiers=['thorough'], weight=30, must_reach=_tags1) for o in range(6)]
       + [U('hist_opt%d_n4k2' % o, 'C01_history.cpp', ['VP_N=4', 'VP_K=2', 'VP_OPT=%d' % o], tiers=['thorough'], weight=30, must_reach=_tags1) for o in (0, 1)])
 
@@ -130,7 +130,7 @@ for fl in range(3):
     for idx in (1, 2):
         _u05.append(_pm('C05_matrix.cpp', 'm_%s_idx%d_rows_rm' % (_FL[fl], idx), flavour=fl, idx=idx, rows=1, removable=1, rep=1 if fl == 1 else 0, m=4, extra=['VP_RM=2'], weight=6, must=('end', 'removed')))
 for fl in range(3):
-    _u05.append(_pm('C05_matrix.cpp', 'm_%s_gapped_ids_rm' % _FL[fl], flavour=fl, idx=0 if fl != 2 else 2, removable=1, rep=1 if fl == 1 else 0, m=4, extra=['VP_RM=2', 'VP_IDS'], weight=12, must=('end', 'removed')))
+    _u05.append(_pm('C05_matrix.cpp', 'm_%s_gapped_ids_rm' % _FL[fl], flavour=fl, idx=0 if fl != 2 else 2, removable=1, rep=1 if fl == 1 else 0, m=4, extra=['VP_RM=2', 'VP_IDS'], weight=60, must=('end', 'removed')))
 for fl in range(3):
     _u05.append(_pm('C05_matrix.cpp', 'm_%s_cw_null_boundaries' % _FL[fl], z2=fl % 2, flavour=fl, rep=1 if fl == 1 else 0, m=4, extra=['VP_CW'], weight=6))
 _u05.append(_pm('C05_matrix.cpp', 'm_ru_z5_units', z2=0, flavour=1, rep=1, m=4, extra=['VP_UNITS'], weight=8))
@@ -345,7 +345,7 @@ PROPS['C19'] = dict(
   bounds=dict(quick='n=3 and n=4 points, distances in {1,1.5,2,2.5,3} satisfying the triangle inequality, epsilon in {1/4,1/2,3/4}; validity clause also for epsilon in {1,2} and mini=1.5 / maxi=2; three random-device values (different starting points)', thorough='n=5 with distances in {1,1.5,2}'),
   outside=['point-cloud input with Euclidean distances of symbolic coordinates', 'epsilon off the listed values', 'more than 5 points'],
   units=[_c19('srips_n3_seed0', 3, 0), _c19('srips_n4_seed0', 4, 0, weight=10), _c19('srips_n4_seed7', 4, 7, weight=10), _c19('srips_n4_seed12345', 4, 12345, weight=10), _c19('srips_n4_validity', 4, 3, extra=['VP_VALIDITY_ONLY', 'VP_GRIDN=3'], weight=10), _c19('srips_n3_validity', 3, 5, extra=['VP_VALIDITY_ONLY'], weight=4),
-         _c19('srips_n4_line12', 4, 2, extra=['VP_LINE=12'], weight=10),
+         _c19('srips_n4_line12', 4, 2, extra=['VP_LINE=12'], weight=40),
          _c19('srips_n5', 5, 1, extra=['VP_GRIDN=3'], tiers=['thorough'], weight=60)])
 
 import sys, os
